@@ -8,7 +8,7 @@ import specs.es_control as SK
 
 
 FN_WRAPPERS = ("arrow", "funcexpr", "callback", "getter")
-LOOPS = ("while", "dowhile", "for", "forin", "forof", "labelled-loop")
+LOOPS = ("while", "dowhile", "for", "forin", "forof", "labelled-loop", "finally-after-break", "finally-after-continue")
 
 
 def _valid_labels(combo, leaf):
@@ -193,7 +193,7 @@ def _toplevel_group(tier="quick", seed=0):
         for combo, leaf, prog in SK.skeletons(d, outer_loop=True):
             if leaf[0] == "return" or not _valid_labels(combo, leaf):
                 continue
-            if any(c in FN_WRAPPERS for c in combo):
+            if any(c in FN_WRAPPERS or c == "finally-after-return" for c in combo):      # (no `return` outside a function)
                 continue
             progs.append((combo, leaf, prog))
     chunks = [progs[i::16] for i in range(16)]
